@@ -47,7 +47,7 @@ impl Prop for P {
     fn meta() -> Meta {
         Meta {
             level: "exploration",
-            rule: "(accept) ALL 65536 two-byte headers in front of a fixed valid body + correct trailer, decoded flat, in rings of 2^0..2^16 bytes, through decompress_to_vec_zlib and inflate(): accepted iff CM=8, CINFO<=7, FDICT=0, FCHECK ok and (ring mode) 2^(CINFO+8) <= ring — exhaustive; (emit) generated configuration x schedule x driver in zlib format: header rules, exactly one header, last four bytes == big-endian definitional Adler-32 of all input; (trailer) valid zlib streams from 4 sources with every kind of trailer/body corruption (single-bit flips, random trailers, literal edits inside stored blocks) under chunkings, output budgets, rings that wrap and zero-length calls: checksum-mismatch unless the caller asked to ignore the checksum. Non-trivial: (accept) header passes CM/FDICT so FCHECK/window rules decide; (emit) >= 1 input byte and >= 2 calls; (trailer) output >= 5553 bytes or >= 3 calls or a ring wrap; distinct by fingerprint",
+            rule: "(accept) ALL 65536 two-byte headers in front of a fixed valid body + correct trailer, decoded flat, in rings of 2^0..2^16 bytes, through decompress_to_vec_zlib and inflate(): accepted iff CM=8, CINFO<=7, FDICT=0, FCHECK ok and (ring mode) 2^(CINFO+8) <= ring — exhaustive; (emit) generated configuration (incl. hand-composed flag words without the compute-checksum bit, and compressors born raw and switched to zlib with set_format_and_level) x schedule x driver in zlib format: header rules, exactly one header, last four bytes == big-endian definitional Adler-32 of all input; (trailer) valid zlib streams from 4 sources with every kind of trailer/body corruption (single-bit flips, random trailers, literal edits inside stored blocks) under chunkings, output budgets, rings that wrap and zero-length calls: checksum-mismatch unless the caller asked to ignore the checksum. Non-trivial: (accept) header passes CM/FDICT so FCHECK/window rules decide; (emit) >= 1 input byte and >= 2 calls; (trailer) output >= 5553 bytes or >= 3 calls or a ring wrap; distinct by fingerprint",
             assumptions: &["adler32_ref (two sums mod 65521 after every byte) is the definition; compared with zlib's in the self-check"],
             dbg: false,
             simd: false,
